@@ -245,6 +245,12 @@ C05_EXTRA = (" Binding B: every block of ~2 500 generated programs and of the re
              "none after a failure, clause values tested in order up to the first equal one, exactly that handler, every finally "
              "statement exactly once, proper nesting).")
 
+C03_EXTRA = (" Binding B: every Environment operation of ~1 200 generated programs and of the repository's own ~760 test "
+             "programs (library code included) is recorded from outside (frame creation, put, set, get, remove, closure "
+             "creation, closure call) and Env_Trace.tla validates the ~50k events against the model of the chain: a call "
+             "frame is a new child of the frame the function was created in, a definition binds in the executing frame, "
+             "an assignment updates and a lookup reads the nearest enclosing binding.")
+
 NOT_YET = "check not built yet in this round (planned, see DESIGN.md section 4)"
 
 
@@ -255,6 +261,10 @@ def main():
         if pid not in CHECKS:
             continue
         mods, tech, text, note, ref = CHECKS[pid]
+        if pid == "C03":
+            mods = mods + ["Env_Trace.tla"]
+            text = text + C03_EXTRA
+            tech = tech + "; TLC trace validation (Env_Trace) of environment-chain events recorded from the real interpreter"
         if pid == "C05":
             mods = mods + ["Block_Trace.tla"]
             text = text + C05_EXTRA
